@@ -1,16 +1,26 @@
 """Facts for C17 (SOCKS reply parsing / handshake), regenerated from the current tree on
-every run.
+every run.  Everything here is obtained by RUNNING the code through its public surface
+(protocol constructors, `next_message`, `receive_data`, `SOCKSProxy.create_connection` on the
+fake network of harness/socks_world.py); nothing is read off the syntax tree except the
+fingerprints (which only steer exploration depth and degrade to 'missing').
 
-  * decision tables: for every value 0..255 of every decision byte of every reply (version,
-    status / method, reserved, address type, length) what the real protocol object does when
-    the reply stream is fed to it one byte at a time: (verdict, number of bytes it asked for
-    before deciding).  verdict: 0 = next_message() returned None, 1 = SOCKSFailure,
-    2 = SOCKSProtocolError, 3 = any other exception, 4 = still NeedData when the stream ended.
-    Obtained through the public surface (constructor, next_message, receive_data) so a
-    reformat/rename does not change them.
-  * REPLY_CODES / ERROR_CODES keys, the exception hierarchy, the classes `_connect_one`
-    catches (AST, sorted), fingerprints of the modelled functions."""
-import ast
+  * verdict tables: for every value 0..255 of every decision byte of every reply (version,
+    status / method, reserved, address type) - alone and *together with a second faulty byte of
+    the same reply* (which check wins) - WHICH verdict the real protocol object reaches when
+    the reply stream is fed to it one byte at a time.  verdict: 0 = next_message() returned
+    None, 1 = SOCKSFailure, 2 = SOCKSProtocolError, 3 = any other exception, 4 = still wants
+    data when the stream ended.  *When* the verdict is reached (after how many bytes) is not
+    part of these tables: a parser that looks at the version byte before asking for the rest
+    behaves the same as far as the property is concerned.
+  * length tables (fed exactly what each need-more-data exception asks for): for every
+    bound-address length 0..255 (verdict, total bytes taken) - on success the total is the
+    length of the handshake, i.e. "exactly the bytes that belong to the handshake".
+  * the exception hierarchy; which exceptions raised inside one proxy attempt make the client
+    go on to the next proxy address and which escape (`caughtTable`), and at which point of an
+    attempt a failure is survivable (`tryScope`) - observed on `create_connection`, not read
+    from the `except` clause.
+  * fingerprints of the modelled functions."""
+import struct
 from ipaddress import IPv4Address
 
 from . import common
@@ -24,44 +34,61 @@ FUNCS = {
         'SOCKSProxy._detect_proxy'],
 }
 
-# table name -> (protocol, with credentials, function byte -> reply stream[, feeding mode])
-# feeding mode: 'bytewise' (default: one byte per NeedData) or 'exact' (as many bytes as the
-# NeedData asked for; used for the long domain-name replies)
 TAIL = [0] * 300
+OK5 = [5, 0, 0, 1, 9, 9, 9, 9, 0, 80]
 
 
 def _streams():
-    ok5 = [5, 0, 0, 1, 9, 9, 9, 9, 0, 80]
+    """table name -> (protocol, with credentials, byte -> reply stream, feeding mode)"""
+    ok5 = OK5
     return {
-        's4Vn': ('4', False, lambda b: [b, 90, 0, 0, 0, 0, 0, 0, 7]),
-        's4Cd': ('4', False, lambda b: [0, b, 1, 2, 3, 4, 5, 6, 7]),
-        's5Ver': ('5', False, lambda b: [b, 0] + ok5 + [7]),
-        's5MethodNoAuth': ('5', False, lambda b: [5, b] + ok5 + [7]),
-        's5MethodAuth': ('5', True, lambda b: [5, b] + ok5 + [7]),
-        's5AuthVer': ('5', True, lambda b: [5, 2, b, 0] + ok5 + [7]),
-        's5AuthStatus': ('5', True, lambda b: [5, 2, 1, b] + ok5 + [7]),
-        's5ConnVer': ('5', False, lambda b: [5, 0, b, 0, 0, 1, 9, 9, 9, 9, 0, 80, 7]),
-        's5ConnRep': ('5', False, lambda b: [5, 0, 5, b, 0, 1, 9, 9, 9, 9, 0, 80, 7]),
-        's5ConnRsv': ('5', False, lambda b: [5, 0, 5, 0, b, 1, 9, 9, 9, 9, 0, 80, 7]),
-        's5ConnAtyp': ('5', False, lambda b: [5, 0, 5, 0, 0, b, 2] + [9] * 20),
-        's5ConnAtypRefused': ('5', False, lambda b: [5, 0, 5, 1, 0, b, 2] + [9] * 20),
+        # ---- one decision byte, the rest granting
+        's4Vn': ('4', False, lambda b: [b, 90, 0, 0, 0, 0, 0, 0, 7], 'bytewise'),
+        's4Cd': ('4', False, lambda b: [0, b, 1, 2, 3, 4, 5, 6, 7], 'bytewise'),
+        's5Ver': ('5', False, lambda b: [b, 0] + ok5 + [7], 'bytewise'),
+        's5MethodNoAuth': ('5', False, lambda b: [5, b] + ok5 + [7], 'bytewise'),
+        's5MethodAuth': ('5', True, lambda b: [5, b] + ok5 + [7], 'bytewise'),
+        's5AuthVer': ('5', True, lambda b: [5, 2, b, 0] + ok5 + [7], 'bytewise'),
+        's5AuthStatus': ('5', True, lambda b: [5, 2, 1, b] + ok5 + [7], 'bytewise'),
+        's5ConnVer': ('5', False, lambda b: [5, 0, b, 0, 0, 1, 9, 9, 9, 9, 0, 80, 7], 'bytewise'),
+        's5ConnRep': ('5', False, lambda b: [5, 0, 5, b, 0, 1, 9, 9, 9, 9, 0, 80, 7], 'bytewise'),
+        's5ConnRsv': ('5', False, lambda b: [5, 0, 5, 0, b, 1, 9, 9, 9, 9, 0, 80, 7], 'bytewise'),
+        's5ConnAtyp': ('5', False, lambda b: [5, 0, 5, 0, 0, b, 2] + [9] * 20, 'bytewise'),
+        # ---- two faults in the same reply: which check wins
+        's4VnRefused': ('4', False, lambda b: [b, 91, 0, 0, 0, 0, 0, 0, 7], 'bytewise'),
+        's4CdVnBad': ('4', False, lambda b: [1, b, 0, 0, 0, 0, 0, 0, 7], 'bytewise'),
+        's5VerMethodBad': ('5', False, lambda b: [b, 255] + ok5 + [7], 'bytewise'),
+        's5MethodVerBad': ('5', True, lambda b: [4, b] + ok5 + [7], 'bytewise'),
+        's5AuthVerStatusBad': ('5', True, lambda b: [5, 2, b, 1] + ok5 + [7], 'bytewise'),
+        's5AuthStatusVerBad': ('5', True, lambda b: [5, 2, 2, b] + ok5 + [7], 'bytewise'),
+        's5ConnVerRefused': ('5', False, lambda b: [5, 0, b, 1, 0, 1, 9, 9, 9, 9, 0, 80, 7], 'bytewise'),
+        's5ConnRsvRefused': ('5', False, lambda b: [5, 0, 5, 1, b, 1, 9, 9, 9, 9, 0, 80, 7], 'bytewise'),
+        's5ConnAtypRefused': ('5', False, lambda b: [5, 0, 5, 1, 0, b, 2] + [9] * 20, 'bytewise'),
+        's5ConnRepVerBad': ('5', False, lambda b: [5, 0, 4, b, 0, 1, 9, 9, 9, 9, 0, 80, 7], 'bytewise'),
+        's5ConnRepRsvBad': ('5', False, lambda b: [5, 0, 5, b, 1, 1, 9, 9, 9, 9, 0, 80, 7], 'bytewise'),
+        's5ConnRepAtypBad': ('5', False, lambda b: [5, 0, 5, b, 0, 9, 2] + [9] * 20, 'bytewise'),
+        's5ConnVerRsvBad': ('5', False, lambda b: [5, 0, b, 0, 1, 1, 9, 9, 9, 9, 0, 80, 7], 'bytewise'),
+        # the reply most proxies send: everything zero (BND.ADDR 0.0.0.0:0), then one
+        # application byte of every value
+        's5ZeroReply': ('5', False, lambda b: [5, 0, 5, 0, 0, 1, 0, 0, 0, 0, 0, 0, b], 'bytewise'),
+        # ---- domain-name replies: every bound-address length
         's5ConnLen': ('5', False, lambda b: [5, 0, 5, 0, 0, 3, b] + TAIL[:b + 3], 'exact'),
         's5ConnLenAuth': ('5', True, lambda b: [5, 2, 1, 0, 5, 0, 0, 3, b] + TAIL[:b + 3], 'exact'),
         's5ConnLenShort': ('5', False, lambda b: [5, 0, 5, 0, 0, 3, b] + TAIL[:b + 1], 'exact'),
     }
 
 
-def summary(socks, client, stream, mode='bytewise'):
-    """feed `stream` on demand (one byte per NeedData, or exactly the count asked for)
+def summary(socks, need_cls, need_count, client, stream, mode='bytewise'):
+    """feed `stream` on demand (one byte per need-more-data, or exactly the count asked for)
     -> (verdict, bytes fed)"""
     fed = 0
     for _ in range(len(stream) + 8):
         try:
             m = client.next_message()
-        except socks.NeedData as e:
+        except need_cls as e:
             if fed == len(stream):
                 return (4, fed)
-            k = 1 if mode == 'bytewise' else e.args[0]
+            k = 1 if mode == 'bytewise' else need_count(e)
             if not isinstance(k, int) or k < 1:
                 return (3, fed)
             chunk = bytes(stream[fed:fed + k])
@@ -79,41 +106,125 @@ def summary(socks, client, stream, mode='bytewise'):
     return (3, fed)
 
 
+# exceptions of the model's `PyExc`, in the order of the Lean constructor list
+def _exc_kinds(socks):
+    def unicode_error():
+        try:
+            '\ud800'.encode()
+        except UnicodeEncodeError as e:
+            return e
+    return [
+        ('socksProtocolError', lambda: socks.SOCKSProtocolError('probe')),
+        ('socksFailure', lambda: socks.SOCKSFailure('probe')),
+        ('unicodeEncodeError', unicode_error),
+        ('assertionError', lambda: AssertionError('probe')),
+        ('structError', lambda: struct.error('probe')),
+        ('attributeError', lambda: AttributeError('probe')),
+        ('osError', lambda: OSError('probe')),
+        ('unboundLocalError', lambda: UnboundLocalError('probe')),
+        # beyond the model's list: subclasses must behave like their base
+        ('connectionReset', lambda: ConnectionResetError('probe')),
+        ('timeoutError', lambda: TimeoutError('probe')),
+        ('socksErrorSubclass', lambda: type('Custom', (socks.SOCKSError,), {})('probe')),
+        ('valueError', lambda: ValueError('probe')),
+        ('keyError', lambda: KeyError('probe')),
+    ]
+
+
+GRANT5 = bytes([5, 0, 5, 0, 0, 1, 0, 0, 0, 0, 0, 0])
+
+
+def _try_probes(repo):
+    """-> (caught table, try scope) observed on create_connection over two proxy addresses:
+    *survives* = the failure of the first address is followed by an attempt on the second
+    (which grants), so the call succeeds."""
+    from harness import socks_common as sc, socks_world as sw
+    mods = sc.Mods(repo)
+    socks = mods.socks
+
+    def run(protocol, groups, auth=None):
+        w = sw.World()
+        w.add_call(0, groups)
+        proxy = socks.SOCKSProxy(mods.util.NetAddress(sw.PROXY_HOST, sw.PROXY_PORT), protocol, auth)
+        with sw.patched(mods, w):
+            with sw.watchdog(5.0):
+                r = sw.run_one(w, 0, proxy.create_connection(sw.Factory(), '1.2.3.4', 80))
+        return r, w
+
+    caught = []
+    for _name, make in _exc_kinds(socks):
+        state = {'n': 0}
+
+        class Stub(socks.SOCKS5):
+            """a protocol object whose first instance fails in the handshake"""
+
+            def __init__(self, remote_address, auth):
+                super().__init__(remote_address, auth)
+                state['n'] += 1
+                self._first = state['n'] == 1
+
+            def next_message(self):
+                if self._first:
+                    raise make()
+                return super().next_message()
+        try:
+            r, w = run(Stub, [[('t', GRANT5, []), ('t', GRANT5, [])]])
+            caught.append(r[0] == 'ok' and w.calls[0].sockets == 2)
+        except BaseException:       # the probe could not be run: recorded as "escapes"
+            caught.append(False)
+
+    def survives(first_attempt, protocol=None):
+        try:
+            r, w = run(protocol or socks.SOCKS5, [[first_attempt, ('t', GRANT5, [])]])
+            return r[0] == 'ok' and w.calls[0].sockets == 2
+        except BaseException:
+            return False
+
+    class CtorFails(socks.SOCKS5):
+        n = 0
+
+        def __init__(self, remote_address, auth):
+            CtorFails.n += 1
+            if CtorFails.n == 1:
+                raise socks.SOCKSProtocolError('probe')
+            super().__init__(remote_address, auth)
+    scope = [survives(('t', GRANT5, []), CtorFails),      # constructor raises a SOCKSError
+             survives(('s',)),                            # socket.socket() raises OSError
+             survives(('x',)),                            # sock_connect raises OSError
+             survives(('t', b'\x05\xff', [])),            # the handshake raises a SOCKSError
+             survives(('p', GRANT5, []))]                 # getpeername() raises OSError
+    return caught, scope
+
+
 def extract(repo):
+    from harness import socks_common as sc
     socks = common.fresh_import(repo, 'aiorpcx.socks')
     util = common.fresh_import(repo, 'aiorpcx.util')
+    need_cls = sc.need_data_class(socks, util)
     addr = util.NetAddress(IPv4Address('1.2.3.4'), 80)
     auth = socks.SOCKSUserAuth('u', 'p')
     tables = {}
-    for name, spec in _streams().items():
-        proto, creds, fn = spec[:3]
-        mode = spec[3] if len(spec) > 3 else 'bytewise'
+    for name, (proto, creds, fn, mode) in _streams().items():
         cls = socks.SOCKS4 if proto == '4' else socks.SOCKS5
+
         def entry(b):
             try:
                 client = cls(addr, auth if creds else None)
             except Exception:       # a fact, not a crash
                 return (3, 0)
-            return summary(socks, client, fn(b), mode)
-        tables[name] = [entry(b) for b in range(256)]
-    tree = common.parse(repo, 'aiorpcx/socks.py')
-    caught = []
-    node = common.find(tree, 'SOCKSProxy._connect_one')
-    if node is not None:
-        for n in ast.walk(node):
-            if isinstance(n, ast.ExceptHandler) and n.type is not None:
-                elts = n.type.elts if isinstance(n.type, ast.Tuple) else [n.type]
-                caught += [ast.unparse(e) for e in elts]
+            return summary(socks, need_cls, sc.need_count, client, fn(b), mode)
+        rows = [entry(b) for b in range(256)]
+        tables[name] = rows if mode == 'exact' else [v for v, _n in rows]
+    caught, scope = _try_probes(repo)
     return {
         'tables': tables,
-        'reply_codes': sorted(k for k in getattr(socks.SOCKS4, 'REPLY_CODES', {}) if isinstance(k, int)),
-        'error_codes': sorted(k for k in getattr(socks.SOCKS5, 'ERROR_CODES', {}) if isinstance(k, int)),
         'protocol_error_is_socks_error': issubclass(socks.SOCKSProtocolError, socks.SOCKSError),
         'failure_is_socks_error': issubclass(socks.SOCKSFailure, socks.SOCKSError),
         'failure_is_protocol_error': issubclass(socks.SOCKSFailure, socks.SOCKSProtocolError),
         'protocol_error_is_failure': issubclass(socks.SOCKSProtocolError, socks.SOCKSFailure),
-        'need_data_is_socks_error': issubclass(socks.NeedData, (socks.SOCKSError, OSError)),
-        'connect_one_caught': sorted(set(caught)),
+        'socks_error_is_os_error': issubclass(socks.SOCKSError, OSError),
+        'caught_table': caught,
+        'try_scope': scope,
         'fingerprints': common.fingerprints(repo, FUNCS),
     }
 
@@ -121,23 +232,32 @@ def extract(repo):
 def render(f):
     def b(x):
         return 'true' if x else 'false'
+
+    def bl(xs):
+        return '[' + ', '.join(b(x) for x in xs) + ']'
     out = ['/-! GENERATED by tools/facts/c17.py from /repo on every run - do not edit. -/',
            'namespace Aiorpcx.Facts.C17',
-           '/-! decision tables: entry `b` = (verdict, bytes asked for) when decision byte = `b`;',
-           '    verdict 0 = done, 1 = SOCKSFailure, 2 = SOCKSProtocolError, 3 = other, 4 = wants more -/']
+           '/-! verdict tables: entry `b` = verdict when the decision byte = `b`;',
+           '    0 = done, 1 = SOCKSFailure, 2 = SOCKSProtocolError, 3 = other, 4 = wants more;',
+           '    length tables: entry `b` = (verdict, total bytes taken) for bound-address length `b` -/']
     for name, tbl in f['tables'].items():
-        out.append(f'def {name} : List (Nat × Nat) := [' + ', '.join(f'({v}, {n})' for v, n in tbl) + ']')
+        if tbl and isinstance(tbl[0], (list, tuple)):
+            out.append(f'def {name} : List (Nat × Nat) := [' + ', '.join(f'({v}, {n})' for v, n in tbl) + ']')
+        else:
+            out.append(f'def {name} : List Nat := {list(tbl)}')
     out += [
-        '/-- keys of `SOCKS4.REPLY_CODES` -/',
-        f'def replyCodes : List Nat := {f["reply_codes"]}',
-        '/-- keys of `SOCKS5.ERROR_CODES` -/',
-        f'def errorCodes : List Nat := {f["error_codes"]}',
         f'def protocolErrorIsSocksError : Bool := {b(f["protocol_error_is_socks_error"])}',
         f'def failureIsSocksError : Bool := {b(f["failure_is_socks_error"])}',
         f'def failureIsProtocolError : Bool := {b(f["failure_is_protocol_error"])}',
         f'def protocolErrorIsFailure : Bool := {b(f["protocol_error_is_failure"])}',
-        f'def needDataIsCaught : Bool := {b(f["need_data_is_socks_error"])}',
-        '/-- classes named in the `except` clause of `_connect_one` (sorted) -/',
-        'def connectOneCaught : List String := [' + ', '.join(f'"{x}"' for x in f['connect_one_caught']) + ']',
+        f'def socksErrorIsOsError : Bool := {b(f["socks_error_is_os_error"])}',
+        '/-- for each exception kind (the model\'s `PyExc` constructors in order, then',
+        '    ConnectionResetError, TimeoutError, a SOCKSError subclass, ValueError, KeyError):',
+        '    raised by the handshake on the first proxy address, is the second address tried? -/',
+        f'def caughtTable : List Bool := {bl(f["caught_table"])}',
+        '/-- is the next proxy address tried after: the protocol constructor raising a SOCKSError,',
+        '    socket.socket() raising OSError, sock_connect raising OSError, the handshake raising',
+        '    a SOCKSError, getpeername() raising OSError -/',
+        f'def tryScope : List Bool := {bl(f["try_scope"])}',
         'end Aiorpcx.Facts.C17', '']
     return '\n'.join(out)
